@@ -34,6 +34,7 @@ type hbPlan struct {
 	bound       int
 	floodBig    bool
 	closeAtEnd  bool
+	gracefulAt  int // >= 0: the server begins a graceful shutdown at this scheduler step
 }
 
 // hbSession renders the plan's client script into bytes without looking at what
@@ -306,6 +307,10 @@ func hbRunOnce(t *testing.T, rt *rapid.T) {
 	bp.stall = vs.Pct(c, 30)
 	bp.bound = vs.Pick(c, 0, 0, 1, 100, 5000, 70000)
 	bp.closeAtEnd = vs.Bool(c)
+	bp.gracefulAt = -1
+	if vs.Pct(c, 15) {
+		bp.gracefulAt = vs.Range(c, 0, 60)
+	}
 	if bp.stall && bp.bound == 0 {
 		bp.bound = 5000
 	}
@@ -383,10 +388,19 @@ func hbRunOnce(t *testing.T, rt *rapid.T) {
 			maxHandlers = 250 // documented default of Server.MaxConcurrentStreams
 		}
 		r.advMaxStr = maxHandlers
+		gracefulDone := false
 		sim.Check = func() *vs.Violation {
 			r.mu.Lock()
 			defer r.mu.Unlock()
 			r.step++
+			if bp.gracefulAt >= 0 && !gracefulDone && r.step > bp.gracefulAt && r.sc != nil && !r.srvClosed {
+				// the server's own graceful shutdown (http.Server.Shutdown) in the
+				// middle of the byzantine session: a connection error after the
+				// GOAWAY(NO_ERROR) must still end the connection
+				gracefulDone = true
+				r.sc.startGracefulShutdown()
+				vs.G.Inc("fault.byz_graceful_shutdown")
+			}
 			if r.viol != nil {
 				return r.viol
 			}
@@ -401,6 +415,9 @@ func hbRunOnce(t *testing.T, rt *rapid.T) {
 				r.srvFrames = append(r.srvFrames, f)
 				if f.Type == FrameGoAway {
 					r.goAway = true
+					if len(f.Payload) >= 8 {
+						r.goAwayCode = ErrCode(uint32(f.Payload[4])<<24 | uint32(f.Payload[5])<<16 | uint32(f.Payload[6])<<8 | uint32(f.Payload[7]))
+					}
 				}
 				if f.Type == FramePing && f.Flags&FlagPingAck != 0 && len(f.Payload) == 8 {
 					var d [8]byte
@@ -447,16 +464,26 @@ func hbRunOnce(t *testing.T, rt *rapid.T) {
 			}
 			r.mu.Lock()
 			closed, goaway := r.srvClosed, r.goAway
+			// after a graceful GOAWAY(NO_ERROR) the server keeps serving its open
+			// streams and control frames until they are done
+			graceful := goaway && r.goAwayCode == ErrCodeNo && gracefulDone
 			r.mu.Unlock()
 			atBoundary := hbAtFrameBoundary(input)
-			if viol == nil && !closed && !goaway && atBoundary && !r.conn.A.IsClosed() {
+			if viol == nil && !closed && (!goaway || graceful) && atBoundary && !r.conn.A.IsClosed() {
 				// the server is still serving: a fresh PING must be answered
 				probe := [8]byte{0xfe, 0xed, 0xfa, 0xce, 1, 2, 3, 4}
 				NewFramer(r.conn.A, nil).WritePing(false, probe)
 				settle()
+				if graceful {
+					// (or the connection ends: the close after a GOAWAY with an error
+					// code, or after the last stream of a graceful shutdown, is a timer)
+					sim.Sleep(3 * time.Second)
+					settle()
+					vs.G.Inc("probe.fresh_ping_probe_during_graceful_shutdown")
+				}
 				sim.Check()
 				r.mu.Lock()
-				ok := r.srvClosed || r.goAway
+				ok := r.srvClosed || (r.goAway && !graceful) || (graceful && r.goAwayCode != ErrCodeNo)
 				for _, a := range r.pingAcks {
 					ok = ok || a == probe
 				}
